@@ -233,7 +233,7 @@ def _enum_cases(max_nodes, index, count):
 
 def plan(tier, seed):
     nshards = 16
-    examples = 100 if tier == "quick" else 1500
+    examples = 200 if tier == "quick" else 1500
     max_nodes = 3 if tier == "quick" else 5
     tasks = [{"engine": "enum", "max_nodes": max_nodes, "index": i, "count": nshards} for i in range(nshards)]
     tasks += [{"engine": "hyp", "examples": examples, "seed": seed * 1000 + i} for i in range(nshards)]
